@@ -12,6 +12,9 @@
      tx[t].d       delta.state of t in deltaOverlay.txDeltas (delta.forward is derived)
      IdxPut/IdxDel LookupIndex.putLocked / deleteLocked (SortedIndex.setCommitted / deleteCommitted)
      IdxGet        LookupIndex.Get / SortedIndex.Get = committed buckets, then delta.merge
+     Val           abstract indexed values; the harness runs every behaviour once with "a"
+                   concretised as "a" and once as "" (the Go zero value of the indexed field,
+                   which deltaEntry uses as the value of a tombstone); order a < b < c is kept
      ViewOf(t)     what a read inside tx t returns: pebble Batch.Get / NewIter read the batch
                    over the *current* DB state (no snapshot): a tx sees its own staged
                    writes and every commit made so far, never another tx's batch
@@ -32,6 +35,8 @@
      Flush         tx.Commit: t.state.runCleanups(true) -> deltaOverlay cleanup -> idx.flush(delta)
      Commit        the three steps above as one (AtomicCommit = TRUE: "masked" configuration)
      Abort         tx.Close without commit: runCleanups(false), delta dropped, batch closed
+     CommitFails   tx.Commit when kv.Tx.Commit returns an error (harness: fault-injecting kv
+                   wrapper): runCleanups(false); same effect as Abort
      IdxQuery      Retrieve.Exec with Where(tree): resolveFilter (materializeFilters, intersectKeys /
                    unionKeys), execKeys over the candidate keys or execFilter scan, match() with
                    the construction-time or resolver-returned eval (filter.go And / Or / Not)
@@ -315,9 +320,13 @@ Abort(t) ==
   /\ tx' = Finish(t)
   /\ UNCHANGED <<phase, kv, idx>>
 
+\* tx.Commit whose underlying kv commit returns an error: runCleanups(false), then Close.
+\* For the table and the index this is an abort: nothing of the batch or the delta survives.
+CommitFails(t) == Abort(t)
+
 Next ==
   \/ Populate
-  \/ \E t \in Tx : Open(t) \/ Commit(t) \/ KVCommit(t) \/ Notify(t) \/ Flush(t) \/ Abort(t)
+  \/ \E t \in Tx : Open(t) \/ Commit(t) \/ KVCommit(t) \/ Notify(t) \/ Flush(t) \/ Abort(t) \/ CommitFails(t)
   \/ \E u \in Tx \cup {DB}, k \in Key, v \in Val : Set(u, k, v) \/ Upd(u, k, v)
   \/ \E u \in Tx \cup {DB}, k \in Key : DelK(u, k)
   \/ \E u \in Tx \cup {DB}, v \in Val, v2 \in Val : UpdEq(u, v, v2)
@@ -357,7 +366,7 @@ CommitVisible == [][\A t \in Tx : Commit(t) =>
                      /\ \A u \in Views' : (u = DB \/ tx'[u].w[k] = Keep) =>
                           \A v \in Val : (k \in IdxGet(u, {v}))' <=> tx[t].w[k] = v]_vars
 \* after abort nobody sees anything of it
-AbortVanishes == [][\A t \in Tx : Abort(t) =>
+AbortVanishes == [][\A t \in Tx : (Abort(t) \/ CommitFails(t)) =>
   /\ kv' = kv /\ idx' = idx
   /\ \A u \in Views' : \A v \in Val : IdxGet(u, {v})' = IdxGet(u, {v})
   /\ \A u \in Views' : \A i \in 1..NT : IdxQuery(Trees[i], u)' = IdxQuery(Trees[i], u)]_vars
